@@ -213,6 +213,22 @@ pub struct Extras {
 
 pub type TpArg = (Option<crate::scenario::TpRewrite>, crate::tptls::TpLog);
 
+/// the builder's type changes with every provider: the last two choices are made by this macro
+macro_rules! finish_start {
+    ($b:expr, $cc:expr) => {{
+        let b = $b;
+        match $cc {
+            Cc::Cubic => b.with_congestion_controller(Cubic::default()).unwrap().start().unwrap(),
+            Cc::Bbr => b.with_congestion_controller(Bbr::default()).unwrap().start().unwrap(),
+        }
+    }};
+}
+
+/// unreliable datagrams (RFC 9221) with small queues
+fn datagram_endpoint() -> s2n_quic::provider::datagram::default::Endpoint {
+    s2n_quic::provider::datagram::default::Endpoint::builder().with_send_capacity(32).unwrap().with_recv_capacity(32).unwrap().build().unwrap()
+}
+
 fn start_server(handle: &Handle, cfg: &EndpointCfg, seed: u64, rec: Recorder, resets: bool, evil: Option<crate::evil::Evil>, tp: TpArg) -> Server {
     if resets {
         start_server_with::<true>(handle, cfg, seed, rec, evil, tp)
@@ -241,9 +257,10 @@ fn start_server_with<const R: bool>(handle: &Handle, cfg: &EndpointCfg, seed: u6
         .unwrap()
         .with_limits(limits_of(&cfg.limits))
         .unwrap();
-    match cfg.cc {
-        Cc::Cubic => b.with_congestion_controller(Cubic::default()).unwrap().start().unwrap(),
-        Cc::Bbr => b.with_congestion_controller(Bbr::default()).unwrap().start().unwrap(),
+    if cfg.datagram {
+        finish_start!(b.with_datagram(datagram_endpoint()).unwrap(), cfg.cc)
+    } else {
+        finish_start!(b, cfg.cc)
     }
 }
 
@@ -275,9 +292,10 @@ fn start_client_with<const R: bool>(handle: &Handle, cfg: &EndpointCfg, seed: u6
         .unwrap()
         .with_limits(limits_of(&cfg.limits))
         .unwrap();
-    match cfg.cc {
-        Cc::Cubic => b.with_congestion_controller(Cubic::default()).unwrap().start().unwrap(),
-        Cc::Bbr => b.with_congestion_controller(Bbr::default()).unwrap().start().unwrap(),
+    if cfg.datagram {
+        finish_start!(b.with_datagram(datagram_endpoint()).unwrap(), cfg.cc)
+    } else {
+        finish_start!(b, cfg.cc)
     }
 }
 
